@@ -100,7 +100,8 @@ def gen_case(rng, tier):
     return {'count': count, 'n': n, 'b': rng.choice([1, 2, 3, 10, 100, 1024, 2000, max(1, count), max(1, n)]),
             'rg': rng.choice([None, None, None, 1, 2, 7, 100, 500]), 'compression': rng.choice(CODECS),
             'schema': rng.choice(['flat', 'flat', 'nested', 'nested', 'single_int', 'single_str']), 'via': rng.choice(['path', 'path', 'fileobj', 'open_obj']),
-            'resub': rng.random() < 0.4, 'salt': rng.randint(0, 1000), 'dump_twice': rng.random() < 0.3}
+            'resub': rng.random() < 0.4, 'salt': rng.randint(0, 1000), 'dump_twice': rng.random() < 0.3,
+            'perm': rng.random() < 0.25}
 
 
 def cases(tier, rng):
@@ -123,6 +124,12 @@ def cases(tier, rng):
         c = dict(base)
         c.update(count=count, n=n, dump_twice=True)
         yield c
+    # rows that are equal dicts but were built with their keys in another insertion order (rows are records addressed by name)
+    for count, n in [(3, 8), (7, 3), (4, 2), (9, 4)]:
+        for kind in ('flat', 'nested'):
+            c = dict(base)
+            c.update(count=count, n=n, schema=kind, perm=True)
+            yield c
     m = {'quick': 70, 'thorough': 900, 'search': 120}[tier]
     for _ in range(m):
         yield gen_case(rng, tier)
@@ -137,6 +144,8 @@ def table_rows(t):
 def real(case):
     schema = schema_of(case['schema'])
     rows = make_rows(case['count'], case['schema'], case['salt'])
+    if case.get('perm'):
+        rows = [dict(reversed(list(r.items()))) if i % 2 else r for i, r in enumerate(rows)]
     res = {'completed': 0, 'errors': []}
     path = None
     buf = None
